@@ -15,7 +15,7 @@ TEXT = {
     'C05': ('W-HIST histories + uniqueness walker + lookup/DFS reference model',
             'Held-on-observed: id uniqueness per WBS/detached tree after every call; wbs[id] and WBS.tasks compared with a '
             'reference lookup/DFS for every id of the universe in every reached state.', '5/C05'),
-    'C11': ('W-HIST histories + owner==reachability monitor + re-attachment tail',
+    'C11': ('W-HIST histories + owner==reachability monitor + removal-effect and released-task-refused clauses against the outcome-following model + re-attachment tail',
             'Held-on-observed: Task.wbs compared with reachability for every (task, WBS) pair after every call; every released '
             'task is re-attached to a fresh WBS at the end of each history.', '5/C11'),
     'C15': ('W-HIST histories + snapshot equality around every raising call',
@@ -43,9 +43,10 @@ TEXT = {
             'Held-on-observed.', '5/C08'),
     'C09': ('backward-schedule oracle (deadline, dependencies, late packing, end-of-day encoding)',
             'Held-on-observed.', '5/C09'),
-    'C14': ('exception-type classifier + unschedulability predicates + logical step budget at the capacity-query hook',
-            'Held-on-observed; termination restated as bounded progress in capacity queries.', '5/C14'),
-    'C12': ('exact longest-path reference (Fraction) vs critical_path(), snapshot equality around the call',
+    'C14': ('exception-type classifier + unschedulability predicates + logical step budgets (capacity queries at the IResource hook; '
+            'sys.monitoring PY_START call counter on pjplan/schedule.py for work that asks no resource)',
+            'Held-on-observed; termination restated as bounded progress in capacity queries and in calls of scheduler functions.', '5/C14'),
+    'C12': ('exact longest-path reference (Fraction) vs critical_path(), snapshot equality around the call, random + exhaustive small-scope workloads',
             'Held-on-observed.', '5/C12'),
     'C13': ('CSV round trip: model comparison, byte fixpoint, independent reference writer',
             'Held-on-observed.', '5/C13'),
